@@ -58,6 +58,10 @@ def gen_case(rng: random.Random, tier: str, bias: str = ''):
     n = rng.choice([1, 1, 2, 3, 4, 6, 8, 12] if not big else [1, 2, 3, 5, 8, 13, 20, 30])
     service = rng.choice([0, 1, 3, 8])
     gaps = [0, 0, 0, 1, 2, 3, 5, wait, wait + 1, 2 * wait + 1]
+    if bias == 'single':
+        # batch_size 0 / 1: _start_single (no collector thread, no buffer)
+        b = rng.choice([0, 1])
+        wait = 0
     if bias == 'lone':
         # a single request (or a few far apart): nothing else ever arrives to fill the batch
         n = rng.choice([1, 1, 2, 3])
@@ -408,7 +412,9 @@ def monitor(case, res, results):
     arrived_at = {}
     tfirst = {}            # worker -> time the first element of the batch being assembled was taken
     in_batch = {}
-    calls = []             # (worker, uids, t, t0)
+    members = {}
+    released = {}          # (worker, uids) -> (t0, t_release)
+    calls = []             # (worker, uids, t)
     seen = collections.Counter()
     outs = collections.defaultdict(list)
     taken = set()
@@ -423,11 +429,16 @@ def monitor(case, res, results):
             taken.add(e[3])
         elif name == 'bget':
             i = e[2]
-            if e[3] != 'stop' and not in_batch.get(i):
-                in_batch[i] = True
-                tfirst[i] = t
+            if e[3] != 'stop':
+                if not in_batch.get(i):
+                    in_batch[i] = True
+                    tfirst[i] = t
+                    members[i] = []
+                members[i].append(e[3])
         elif name == 'fset':
-            in_batch[e[2]] = False
+            i = e[2]
+            in_batch[i] = False
+            released[(i, tuple(members.get(i, [])))] = (tfirst.get(i), t)
         elif name == 'call':
             i, is_list, us = e[2], e[3], e[4]
             toks = [u for u in us.split(',') if u != '']
@@ -448,9 +459,11 @@ def monitor(case, res, results):
                 else:
                     seen[u] += 1
             if b > 1:
-                t0 = tfirst.get(i)
-                if t0 is not None and t > t0 + wait:
-                    mon.append(dict(prop='C09', rule='deadline', detail=f'worker {i}: batch {uids} first element taken at {t0}, handed to call at {t} > {t0}+{wait}'))
+                t0, trel = released.get((i, tuple(uids)), (None, None))
+                if t0 is None:
+                    mon.append(dict(prop='C09', rule='malformed-batch', detail=f'worker {i}: call got {uids}, which is not a batch the consumer assembled'))
+                elif trel > t0 + wait or (t > t0 + wait):
+                    mon.append(dict(prop='C09', rule='deadline', detail=f'worker {i}: batch {uids} first element taken at {t0}, released at {trel}, handed to call at {t} > {t0}+{wait}'))
         elif name == 'oput':
             outs[e[3]].append(e[4:])
     res['ncalls'] = len(calls)
@@ -474,6 +487,8 @@ def monitor(case, res, results):
                 break
         for u in sorted(kinds):
             o = outs.get(u, [])
+            if res.get('deadlock'):
+                break               # reported as unserved / hang below
             if len(o) != 1:
                 mon.append(dict(prop='C09', rule='output-count', detail=f'request {u} ({kinds[u]}) has {len(o)} outputs {o}'))
                 break
@@ -569,9 +584,10 @@ def model_lines(cid, case, res):
                     continue
                 head = pend[i][0]
                 head[2] += 1
+                head.append(uid)                 # the uids in the order they were actually written
                 if head[2] == head[1]:
                     pend[i].pop(0)
-                    lines.append(f'e {t} emit {i} {int(kind == "val")} {head[0]}')
+                    lines.append(f'e {t} emit {i} {int(kind == "val")} {",".join(str(u) for u in head[3:])}')
             else:
                 lines.append(f'e {t} emit {i} 0 garbage-output-for-{uid}')
         # qputback / osent / joined: not model actions (folded into cPut / gFirst / sGet)
